@@ -17,6 +17,30 @@ from .c06 import aff_of_term
 TYPES = ('Success', 'Pending', 'Warning', 'Cancel', 'Failure')
 
 
+def record_fields(term_or_node):
+    """{field: text of the argument} for a term that builds a registry record (a namedtuple type of the package called
+    positionally / by keyword), or None"""
+    from ..sym import NAMEDTUPLE_FIELDS
+    e = term_or_node
+    if isinstance(e, str):
+        try:
+            e = ast.parse(e, mode='eval').body
+        except SyntaxError:
+            return None
+    if not (isinstance(e, ast.Call) and not any(isinstance(a, ast.Starred) for a in e.args) and not any(k.arg is None for k in e.keywords)):
+        return None
+    nm = e.func.id if isinstance(e.func, ast.Name) else e.func.attr if isinstance(e.func, ast.Attribute) else None
+    fields = NAMEDTUPLE_FIELDS.get(nm)
+    if not fields or len(e.args) + len(e.keywords) != len(fields):
+        return None
+    out = {f: norm(a) for f, a in zip(fields, e.args)}
+    for k in e.keywords:
+        if k.arg not in fields or k.arg in out:
+            return None
+        out[k.arg] = norm(k.value)
+    return out
+
+
 def run(repo, rep):
     st = repo.module('statuses')
     dm = repo.module('dimsemessages')
@@ -44,6 +68,7 @@ def run(repo, rep):
     if add.params != ['code', 'code_type', 'description', 'end', 'command'] and len(add.params) != 5:
         probs.append('unexpected signature %s' % add.params)
     seen = {'general': 0, 'specific': 0}
+    records_carry_code = False
     for e, s in stores:
         key, val = (inline_pure_calls(x, repo, 'statuses') for x in e.args)
         general = e.callee.startswith('_general')
@@ -54,8 +79,9 @@ def run(repo, rep):
             probs.append('general table written on a path where a command may be given')
         if not general and not cmd_given:
             probs.append('command-specific table written on a path without a command')
-        if val != 's(%s, %s)' % (p_type, p_desc):
-            probs.append('stored value is %s, not the row\'s (type, description)' % val)
+        rf = record_fields(val)
+        if rf is None or rf.get('code_type') != p_type or rf.get('description') != p_desc:
+            probs.append('stored value is %s, not a record of the row\'s type and description' % val)
         # the key: ITEM(range(code, end + 1)) / ITEM([code])
         k = key
         if not general:
@@ -67,6 +93,11 @@ def run(repo, rep):
         if not k.startswith('ITEM('):
             probs.append('key %s is not an element of the code range' % k)
             continue
+        if rf is not None and 'code' in rf:
+            records_carry_code = True
+            if rf['code'] != k and k not in ('ITEM([%s])' % rf['code'], 'ITEM((%s,))' % rf['code']):
+                probs.append('the record stored under code %s carries code %s: every code of a range but the first reads back as '
+                             'another code' % (k, rf['code']))
         rng = k[5:-1]
         has_end = any(cn in ('+%s is not None' % p_end, '-%s is None' % p_end) for cn in e.conds)
         no_end = any(cn in ('-%s is not None' % p_end, '+%s is None' % p_end) for cn in e.conds)
@@ -151,13 +182,45 @@ def run(repo, rep):
     fin = c.final_states(c.run(empty_state()))
     probs = []
     spec = '_status_dict.get((%s.command_field, %s))' % (cparam, vparam)
-    gen = '_general_status_dict.get(%s, UNKNOWN)' % vparam
+    gen_d = '_general_status_dict.get(%s, UNKNOWN)' % vparam
+    gen = '_general_status_dict.get(%s)' % vparam
     unknown = repo.try_fold(ast.parse('UNKNOWN', mode='eval').body, st)
+    # ``status_type`` / the code: attributes the constructor stores, or read-only properties over what it stores
+    def attr_term(s_, name, depth=0):
+        t = s_.field('EXT:self', name)
+        if t is not None or depth > 4:
+            return t
+        pf = sc.find_method(name)
+        if pf is not None and pf.kind == 'property':
+            body = [x for x in pf.node.body if not (isinstance(x, ast.Expr) and isinstance(x.value, ast.Constant))]
+            if len(body) == 1 and isinstance(body[0], ast.Return) and body[0].value is not None:
+                import copy as _copy
+
+                class R(ast.NodeTransformer):
+                    def visit_Attribute(self_, n):
+                        n = self_.generic_visit(n)
+                        if isinstance(n.value, ast.Name) and n.value.id == pf.params[0]:
+                            sub = attr_term(s_, n.attr, depth + 1)
+                            if sub is not None:
+                                return ast.parse(sub, mode='eval').body
+                        return n
+                from ..sym import simplify_term
+                return simplify_term(norm(R().visit(_copy.deepcopy(body[0].value))))
+        return None
+
+    def drop_replace(t):
+        """``X._replace(code=v).f`` is ``X.f`` for every field but code, and ``v`` for code"""
+        import re as _re
+        m = _re.match(r'^(\w+)\._replace\(code=(.+)\)\.(\w+)$', t)
+        if m:
+            return m.group(2) if m.group(3) == 'code' else '%s.%s' % (m.group(1), m.group(3))
+        return t
+    code_ok = True
     for s, how in fin:
-        tterm = s.field('EXT:self', 'status_type')
-        if tterm is not None:
-            tterm = inline_pure_calls(tterm, repo, 'statuses')
         s = type(s)(s.env, s.heap, tuple(cn[0] + inline_pure_calls(cn[1:], repo, 'statuses') if cn[:1] in '+-' else cn for cn in s.conds), s.trail, s.ret)
+        tterm = attr_term(s, 'status_type')
+        if tterm is not None:
+            tterm = drop_replace(inline_pure_calls(tterm, repo, 'statuses'))
         if tterm is None:
             probs.append('status_type not assigned on a path')
             continue
@@ -165,15 +228,40 @@ def run(repo, rep):
         no_cmd = ('-' + cparam) in s.conds or ('+%s is None' % cparam) in s.conds
         spec_hit = ('+' + spec) in s.conds or ('-not ' + spec) in s.conds
         spec_miss = ('-' + spec) in s.conds
+        gen_hit = ('+' + gen) in s.conds or ('-not ' + gen) in s.conds
+        gen_miss = ('-' + gen) in s.conds or ('+not ' + gen) in s.conds
         if has_cmd and spec_hit:
+            src = spec
             if tterm != spec + '.code_type':
                 probs.append('specific entry exists but the type comes from %s' % tterm)
         elif has_cmd and spec_miss or no_cmd:
-            if tterm != gen + '.code_type':
-                probs.append('no specific entry: type comes from %s, expected the general entry with UNKNOWN default' % tterm)
+            if gen_hit:
+                src, want_t = gen, gen + '.code_type'
+            elif gen_miss:
+                src, want_t = 'UNKNOWN', 'UNKNOWN.code_type'
+            else:
+                src, want_t = gen_d, gen_d + '.code_type'
+            if tterm != want_t:
+                probs.append('no specific entry: type comes from %s, expected the general entry, UNKNOWN when there is none' % tterm)
         else:
             probs.append('lookup path not understood: %s' % ' '.join(s.conds))
-        if s.field('EXT:self', '_value') != vparam:
+            continue
+        # int() gives the code back: the constructor keeps the argument, or the record found under that code carries it (W1)
+        stored = s.field('EXT:self', '_value')
+        cterm = attr_term(s, 'code')
+        if stored == vparam:
+            pass
+        elif cterm is not None:
+            ct = drop_replace(inline_pure_calls(cterm, repo, 'statuses'))
+            if ct == vparam:
+                pass
+            elif ct == src + '.code' and src != 'UNKNOWN' and not src.endswith(', UNKNOWN)') and records_carry_code:
+                pass      # the record stored under this very code: carries it, by C18.W1
+            else:
+                code_ok = False
+                probs.append('the code read back is %s, not the constructor argument' % ct)
+        else:
+            code_ok = False
             probs.append('the code is not stored')
     if len(fin) < 3:
         probs.append('only %d lookup paths' % len(fin))
@@ -199,7 +287,9 @@ def run(repo, rep):
               'five flags = equality of status_type with five pairwise distinct literals',
               'flags are %s, expected %s' % (flags, want_flags))
     intf = sc.find_method('__int__')
-    ok = intf is not None and any(isinstance(n, ast.Return) and norm(n.value) in ('int(self._value)', 'self._value') for n in ast.walk(intf.node))
+    ok = intf is not None and any(isinstance(n, ast.Return) and norm(n.value) in (
+        'int(self._value)', 'self._value', 'int(self.code)', 'self.code', 'int(self._info.code)', 'self._info.code')
+        for n in ast.walk(intf.node)) and code_ok
     rep.check(ok, 'C18.W2', 'statuses:Status.__int__', intf.loc() if intf else sc.loc(), 'int(Status(c)) returns the stored code',
               '__int__ does not return the stored code')
 
@@ -211,8 +301,12 @@ def run(repo, rep):
         pass
     unknown_type = None
     u_expr = st.assigns.get('UNKNOWN', [None])[-1]
-    if isinstance(u_expr, ast.Call) and u_expr.args and isinstance(u_expr.args[0], ast.Constant):
-        unknown_type = u_expr.args[0].value
+    urf = record_fields(u_expr) if u_expr is not None else None
+    if urf is not None and 'code_type' in urf:
+        try:
+            unknown_type = ast.literal_eval(urf['code_type'])
+        except (ValueError, SyntaxError):
+            unknown_type = None
     general: List[Tuple[int, int, str, int]] = []
     specific: Dict[str, List[Tuple[int, int, str, int]]] = {}
     bad_rows = []
